@@ -151,7 +151,7 @@ def main(ctx: Ctx):
     quick = ctx.tier == "quick"
     L = 3 if quick else 4
     symbols = [0, 1, 2, "r"]
-    for m in ((2, 3) if quick else (2, 3, 4, 5)):
+    for m in ((2, 3) if quick else (2, 3, 4)):
         mats = alphabet(rng, m)
         hists = [h for n in range(1, L + 1) for h in itertools.product(symbols, repeat=n) if h[0] != "r"]
         if quick:
@@ -166,7 +166,7 @@ def main(ctx: Ctx):
                     break
     # alphabets containing matrices on which the solver's first sub-problem is ill-posed
     for m in ((2, 3) if quick else (2, 3, 4)):
-        for rep_ in range(2 if quick else 20):
+        for rep_ in range(2 if quick else 5):
             mats = hard_alphabet(rng, m)
             hists = [h for n in range(1, L + 1) for h in itertools.product(symbols, repeat=n) if h[0] != "r"]
             for k in (1, 2, 3):
